@@ -279,6 +279,25 @@ Theorem traceql_tags_every_scan_bounded : forall info c q m n s,
 Proof. exact tq_tags_scans_bounded. Qed.
 Print Assumptions traceql_tags_every_scan_bounded.
 
+(* the complexity estimate the reader sends before every TraceQL search / tags / values request (planner.planEval:
+   AttrConditionEvaluatorPlanner over the distributed attribute table, AttrlessEvaluatorPlanner, ComplexEvalOrPlanner,
+   EvalFinalizerPlanner; model/ScansTq.v module TE, tied byte for byte to the recorded `WITH pre_final ...` statements in
+   C13's run): every read is bounded, for every script, call number and context *)
+Theorem traceql_estimate_every_scan_bounded : forall info c q n s,
+  tq_tables info c -> tq_ctx_ok c -> TE.plan_eval q c n = TraceqlPlan.Ok s ->
+  Forall (scan_bounded info (tq_win c)) (tq_scans s).
+Proof. exact tq_eval_scans_bounded. Qed.
+Print Assumptions traceql_estimate_every_scan_bounded.
+
+(* /api/v2/search/tags and /api/v2/search/tag/{tag}/values without a query (AllTagsRequestPlanner, AllValuesRequestPlanner):
+   date >= FormatFromDate(From), date <= day(To) on tempo_traces_kv *)
+Theorem traceql_all_tags_every_scan_bounded : forall info c key,
+  tq_tables info c -> tq_ctx_ok c ->
+  Forall (scan_bounded info (tq_win c)) (tq_scans (TE.all_tags c)) /\
+  Forall (scan_bounded info (tq_win c)) (tq_scans (TraceqlPlan.all_values c key)).
+Proof. exact tq_all_tags_scans_bounded. Qed.
+Print Assumptions traceql_all_tags_every_scan_bounded.
+
 (* ---- the hypotheses are met by non-trivial values ------------------------------------------------- *)
 Example partial_guard_met :
   no_slf plain_query = true /\ plan_log plain_query true = Some plain_plan /\
@@ -334,3 +353,8 @@ Example prof_planner_guards_met :
    = [29; 9; 29; 4; 8; 1; 3; 5] /\
   List.length (scans (profile_types_query "profiles_series_dist" 1704888000000 1704891600000)) = 1%nat.
 Proof. split; [exact prof_ctx_tables | exact prof_examples]. Qed.
+Example traceql_estimate_guards_met :
+  (match tq_eval_res tq_q0 with Some s => Nat.leb 1 (List.length (tq_scans s)) && tq_all_bounded_b s | None => false end = true) /\
+  (match tq_eval_res tq_q1 with Some s => Nat.leb 2 (List.length (tq_scans s)) && tq_all_bounded_b s | None => false end = true) /\
+  List.length (tq_scans (TE.all_tags tq_ctx0)) = 1%nat.
+Proof. exact tq_eval_examples. Qed.
